@@ -546,7 +546,7 @@ func runC12(o *opts) error {
 		for k := 1; k <= 4; k++ {
 			for np := 0; np <= 3; np++ {
 				for nn := 0; nn <= 3; nn++ {
-					if np <= NP && nn <= NN {
+					if (np <= NP && nn <= NN) || (k == 4 && nn == 3) {
 						continue
 					}
 					for _, e := range c12Exprs(k, np, nn) {
